@@ -605,7 +605,8 @@ def eval_doc(ctx: Ctx, case: dict, doc: dict, conv: str, mode: str, data: Any, e
         ctx.count('encode not driven for this converter')
         return None
     wild_elems = any(n['tag'][0] == L.WILD for n in L.doc_nodes(doc))
-    wild_any = wild_elems or any(a[0] == L.WILD for n in L.doc_nodes(doc) for a in n['attrs'])
+    wild_any = wild_elems or any(a[0] == L.WILD for n in L.doc_nodes(doc) for a in n['attrs']) or \
+        any(u == L.WILD for n in L.doc_nodes(doc) for _, u in n['decl'])
     if conv == 'badgerfish' and wild_elems:
         # xs:anyType children are stored without a list: single-child dicts are taken for wrappers when encoding
         ctx.count('encode not evaluable (badgerfish, wildcard-matched elements: wrapper ambiguity)')
@@ -718,6 +719,13 @@ def eval_doc(ctx: Ctx, case: dict, doc: dict, conv: str, mode: str, data: Any, e
         # (two attribute keys that resolve to one name collapse: compare the sets of local names)
         return [t[0].split('}')[-1].split(':')[-1], sorted({a.split('}')[-1].split(':')[-1] for a in t[1]}),
                 sorted((local_only(c) for c in t[2]), key=repr)]
+    if decode_ok and wild_any and conv == 'jsonml':
+        # JsonML resolves every item's own tag and attributes after its set_xmlns_context: once a level-0 probe of a
+        # wildcard match (C17-F11) has reset the context stack, any later name may take other bindings, collapse
+        # with another attribute or keep an unresolved prefix.  Documents that bind the wildcard namespace only.
+        ctx.known_hit('C17-F11', case)
+        ctx.count('known:C17-F11 (encode, jsonml after a context reset)')
+        return None
     if decode_ok and wild_elems and local_only(enc) == local_only(got):
         # documents with wildcard-matched elements, same shape and local names, namespaces differ:
         # C17-F11 (JsonML: the level-0 probe of a wildcard-matched item resets the context stack and every item's
